@@ -17,7 +17,7 @@ from tools import common
 LEVEL = "proof"
 MANIFEST = dict(
     category="proof",
-    text="Lean 4 theorems (40 obligations, all inputs) over a hand model of the splicer machinery, composed with the "
+    text="Lean 4 theorems (42 obligations, all inputs) over a hand model of the splicer machinery, composed with the "
          "write_lines model of C13. (1) precedence: force > user > default, default retention and added flag, markers enclose "
          "exactly the selected body, push/update_top keep every user entry and pop undoes push; files are read into one "
          "dictionary, splicer_code is merged per block (code_beats_files, file_blocks_survive). (2) carriage: for every body "
@@ -30,7 +30,8 @@ MANIFEST = dict(
          "and the whole-file round trip roundtrip_file: get_splicers on an emitted file returns exactly the emitted bodies in "
          "order, equal to the user's up to indentation/trailing blanks, stable under repeated regeneration (readback_line). "
          "(4) stack discipline: wrap_namespace over any tree of nested namespaces leaves the name stack as found "
-         "(wrap_namespace_discipline). Reader crash sites are modelled and stated (reader_leaf_then_prefix, reader_no_name, "
+         "(wrap_namespace_discipline) and so does the class loop over any list of classes and structs, whichever branch wraps "
+         "them (wrapClasses_names). Reader crash sites are modelled and stated (reader_leaf_then_prefix, reader_no_name, "
          "reader_repeat). No _partial statements.",
     design="3 C12",
     note="Ties (every run, through the compiled driver drv_splicer): real splicer.get_splicers on generated files (well-formed, "
@@ -46,10 +47,13 @@ MANIFEST = dict(
          "Python and Lua outputs, supplied by command-line file, YAML file (extension need not match the key), splicer_code, "
          "combinations and conflicts, declaration-level splicers in every YAML scalar form; module-level Fortran blocks and the "
          "blocks of classes/functions must be named after their own namespace; within one file a block name names one block; "
-         "a declaration-level splicer may not vanish from a language the declaration is part of (it forces the wrapper of a "
+         "a declaration-level splicer arrives only in the block(s) of its own key (random key subsets of c, c_buf, c_cfi, f, py) "
+         "and may not vanish from a language the declaration is part of (it forces the wrapper of a "
          "function callable directly); user code for the file-level C blocks of a class with no generated code makes its "
          "files appear; _create_splicer's return value is true for a user body or a default and false otherwise; "
-         "splicer_code lists may hold empty YAML items; generated files of all four languages fed back "
+         "splicer_code lists may hold empty YAML items; in every recorded real generation each _pop_splicer(name) leaves the "
+         "level that was entered under that name and the stack is empty at the end (generated libraries with plain structs, "
+         "classes, nested namespaces; all four wrappers); generated files of all four languages fed back "
          "as splicer files reproduce the same code. "
          "Trusted / modelled, not verified: the Lean kernel; the hand model (flat representation of the nested dictionaries; "
          "Python whitespace on ASCII+U+0085/U+00A0; UTF-8, universal newlines), validated on generated inputs only; NS/wrapNs is "
@@ -89,6 +93,8 @@ THEOREMS = {
         "Shroud.Splicer.wrapNs_names",
         "Shroud.Splicer.wrapKids_names",
         "Shroud.Splicer.wrap_namespace_discipline",
+        "Shroud.Splicer.wrapClassList_names",
+        "Shroud.Splicer.wrapClasses_names",
         "Shroud.Splicer.carriage_unrestricted_false",
         "Shroud.Splicer.outside_ignored",
         "Shroud.Splicer.outside_ignored_tail",
@@ -1758,6 +1764,8 @@ def run(ctx):
         "(witness theorems); marker lines must be Plain (hypothesis of block_carriage; true for the comment strings in use)",
         "whole-file round trip (roundtrip_file) is for pairwise prefix-incomparable dotted names, Clean right-stripped "
         "end-marker-free bodies, a marker prefix without the letter 's' and an indentation unit of blanks",
+        "wrapClasses_names is about the abstraction wrapClasses of the emitters' class loops (push name; struct or class "
+        "branch, stack neutral; pop name), checked on the real emitters by the recorded push/pop sequences",
         "wrap_namespace_discipline is about the abstraction wrapNs of Wrapf.wrap_namespace (push/pop balanced around classes and "
         "functions, update_top before every nested namespace, restore at the end), tied by the recorded sequences",
         "a splicer named __line__ (key injected by the YAML loader into splicer_code mappings) is outside the model",
